@@ -41,6 +41,10 @@ func stringDemuxFunc(x []byte) (string, []byte, error) {
 		return "", nil, errors.Errorf("stringmux: could not read message")
 	}
 	x = x[n:]
+	if chanLength > uint64(len(x)) {
+		// also covers lengths which do not fit in an int
+		return "", nil, errors.Errorf("stringmux: length smaller than message")
+	}
 	if len(x) < int(chanLength) {
 		return "", nil, errors.Errorf("stringmux: length smaller than message")
 	}
